@@ -101,7 +101,7 @@ def roundtrip(sh, db, allow_properties, origin, suite, feats=None, text0=None):
         items = am.diff_items(prev_c, c1)
         for p, a, b in items:
             k = classify(p, a, b)
-            if feats.get('flavour') == 'reserved' and feats.get('site') in ('column_prop_key', 'table_prop_key'):
+            if feats.get('flavour') == 'reserved' and feats.get('site') in ('column_prop_key', 'table_prop_key', 'project_key'):
                 k += '@sweep/' + feats['site'] + '/reserved'
             sh.violation('content', k, f'cycle {cycle}: {p}: {a!r} != {b!r}', case, feats)
         if cycle == 1:
